@@ -708,7 +708,7 @@ class t2data(object):
             nlines = -int(const_timestep)
             for i in range(nlines):
                 i1, i2 = i * 8, min((i + 1) * 8, len(self.parameter['timestep']))
-                vals = self.parameter['timestep'][i1: i2]
+                vals = list(self.parameter['timestep'][i1: i2])
                 if len(vals) < 8: vals += [None] * (8 - len(vals))
                 outfile.write_values(vals, 'timestep')
 
@@ -972,7 +972,7 @@ class t2data(object):
             nlines = int(ceil(self.output_times['num_times_specified'] / 8.))
             for i in range(nlines):
                 i1, i2 = i * 8, min((i + 1) * 8, len(self.output_times['time']))
-                vals = self.output_times['time'][i1: i2]
+                vals = list(self.output_times['time'][i1: i2])
                 if len(vals) < 8: vals += [None] * (8 - len(vals))
                 outfile.write_values(vals, 'output_times2')
 
@@ -1249,7 +1249,7 @@ class t2data(object):
             nlines = self.selection['integer'][0] or 0
             for i in range(nlines):
                 i1, i2 = i * 8, min((i + 1) * 8, len(self.selection['float']))
-                vals = self.selection['float'][i1: i2]
+                vals = list(self.selection['float'][i1: i2])
                 if len(vals) < 8: vals += [None] * (8 - len(vals))
                 outfile.write_values(vals, 'selec2')
 
@@ -1315,7 +1315,7 @@ class t2data(object):
                 nlines = int(ceil(nrad / 8.))
                 for i in range(nlines):
                     i1, i2 = i * 8, min((i + 1) * 8, nrad)
-                    vals = subsection['radii'][i1: i2]
+                    vals = list(subsection['radii'][i1: i2])
                     if len(vals) < 8: vals += [None] * (8 - len(vals))
                     outfile.write_values(vals, 'radii2')
             elif stype == 'equid': outfile.write_value_line(subsection, 'equid')
@@ -1326,7 +1326,7 @@ class t2data(object):
                 nlines = int(ceil(nlayers / 8.))
                 for i in range(nlines):
                     i1, i2 = i * 8, min((i + 1) * 8, nlayers)
-                    vals = subsection['layer'][i1: i2]
+                    vals = list(subsection['layer'][i1: i2])
                     if len(vals) < 8: vals += [None] * (8 - len(vals))
                     outfile.write_values(vals, 'layer2')
 
@@ -1361,7 +1361,7 @@ class t2data(object):
                 nlines = int(ceil(subsection['no'] / 8.))
                 for i in range(nlines):
                     i1, i2 = i * 8, min((i + 1) * 8, subsection['no'])
-                    vals = subsection['deli'][i1: i2]
+                    vals = list(subsection['deli'][i1: i2])
                     if len(vals) < 8: vals += [None] * (8 - len(vals))
                     outfile.write_values(vals, 'xyz3')
         outfile.write('\n')
@@ -1393,7 +1393,7 @@ class t2data(object):
         nlines = int(ceil(nvol / 8.))
         for i in range(nlines):
             i1, i2 = i * 8, min((i + 1) * 8, nvol)
-            vals = section['vol'][i1: i2]
+            vals = list(section['vol'][i1: i2])
             if len(vals) < 8: vals += [None] * (8 - len(vals))
             outfile.write_values(vals, 'part2')
 
